@@ -583,3 +583,7 @@ def replay(ctx, path):
         return 0
     finally:
         shutil.rmtree(d, ignore_errors=True)
+
+
+def pregen(ctx):
+    write_schema_text(C.REPO)
